@@ -73,23 +73,24 @@ class RegisterModeOperandStub:
         # Hoisting. 'a+b(c)' is parsed as 'a+(b(c))', not as '(a+b)(c)'. This is
         # great for function calls, but terrible for index addressing. Hence
         # we're 'hoisting' registers up here.
+        # The syntax tree is shared (a '.repeat' body is compiled from the same
+        # tree several times), so hoisting builds new nodes instead of
+        # rewriting the existing ones.
         def hoist(token):
             if isinstance(token, operators.InfixOperator) and not isinstance(token, operators.call):
-                token.rhs = hoist(token.rhs)
-                if isinstance(token.rhs, operators.call) and try_as_register(token.rhs.rhs, state) is not None:
-                    register = token.rhs.rhs
-                    ctx_end = token.ctx_end
-                    token.rhs = token.rhs.lhs
-                    token.ctx_end = token.rhs.ctx_end
-                    return operators.call(token.ctx_start, ctx_end, token, register)
+                rhs = hoist(token.rhs)
+                if isinstance(rhs, operators.call) and try_as_register(rhs.rhs, state) is not None:
+                    inner = type(token)(token.ctx_start, rhs.lhs.ctx_end, token.lhs, rhs.lhs)
+                    return operators.call(token.ctx_start, token.ctx_end, inner, rhs.rhs)
+                if rhs is not token.rhs:
+                    return type(token)(token.ctx_start, token.ctx_end, token.lhs, rhs)
             elif isinstance(token, operators.PrefixOperator):
-                token.operand = hoist(token.operand)
-                if isinstance(token.operand, operators.call) and try_as_register(token.operand.rhs, state) is not None:
-                    register = token.operand.rhs
-                    ctx_end = token.ctx_end
-                    token.operand = token.operand.lhs
-                    token.ctx_end = token.operand.ctx_end
-                    return operators.call(token.ctx_start, ctx_end, token, register)
+                operand = hoist(token.operand)
+                if isinstance(operand, operators.call) and try_as_register(operand.rhs, state) is not None:
+                    inner = type(token)(token.ctx_start, operand.lhs.ctx_end, operand.lhs)
+                    return operators.call(token.ctx_start, token.ctx_end, inner, operand.rhs)
+                if operand is not token.operand:
+                    return type(token)(token.ctx_start, token.ctx_end, operand)
             return token
         operand = hoist(operand)
 
